@@ -737,6 +737,33 @@ func c20CheckCaveats(ctx *vfCtx, c c20Case, key, key2 []byte, is *c20Issued) {
 		alt := c20Enc(c20EncV2(is.mac.Location(), is.mac.Id(), cs, nsig))
 		ctx.Class("extra:third-party")
 		judgeAll(alt, "third-party", "issued token with a third-party caveat appended")
+	case "att-third-discharged":
+		// the holder appends a third-party caveat under a root key of their own choosing, mints the
+		// matching discharge, binds it and presents both (macaroon.Slice encoding; built with the
+		// macaroon library, not with the code under test). B odd: the discharge carries a caveat too.
+		holderKey := bytes.Repeat([]byte{byte(c.A) | 1}, 24)
+		cid := []byte("discharge:" + c.Text)
+		m := is.mac.Clone()
+		if err := m.AddThirdPartyCaveat(holderKey, cid, "third.example"); err != nil {
+			ctx.Unjudged("third-party caveat could not be added: " + err.Error())
+			return
+		}
+		d, err := macaroon.New(holderKey, cid, "third.example", macaroon.V2)
+		if err != nil {
+			ctx.Unjudged("discharge could not be minted: " + err.Error())
+			return
+		}
+		if c.B%2 == 1 {
+			_ = d.AddFirstPartyCaveat([]byte(future))
+		}
+		d.Bind(m.Signature())
+		bin, err := macaroon.Slice{m, d}.MarshalBinary()
+		if err != nil {
+			ctx.Unjudged("slice could not be encoded: " + err.Error())
+			return
+		}
+		ctx.Class("extra:third-party-with-discharge")
+		judgeAll(c20Enc(bin), "third-party-discharged", "issued token with a holder-made third-party caveat and its discharge bundled behind it")
 	case "mint":
 		// minted with the right key; A = mask of required caveats present, B = extra caveat recipe
 		mask := c20Mod(c.A, 8)
@@ -1006,7 +1033,7 @@ var c20JunkExpiry = []string{"", "abc", " ", "1e12", "99999999999999999999999", 
 var c20OpsIssue = []string{"none"}
 var c20OpsAlter = []string{"alt-flip", "alt-flip", "alt-flip", "alt-trunc", "alt-truncbin", "alt-b64std", "alt-b64pad", "alt-b64char", "alt-b64char", "alt-insert", "alt-appendbin", "alt-garbage",
 	"ks-drop", "ks-dup", "ks-swap", "ks-setuser", "ks-setid", "ks-setboth", "ks-settime", "ks-addunknown", "ks-zerosig", "ks-idsig", "ks-loc", "ks-v1"}
-var c20OpsCaveats = []string{"att-dup", "att-user2", "att-time", "att-unknown", "att-unknown", "att-third", "mint", "mint", "mint", "mint", "mint-user2", "remint"}
+var c20OpsCaveats = []string{"att-dup", "att-user2", "att-time", "att-unknown", "att-unknown", "att-third", "att-third-discharged", "mint", "mint", "mint", "mint", "mint-user2", "remint"}
 var c20OpsExpiry = []string{"exp-rel", "exp-rel", "exp-rel", "exp-abs", "exp-junk", "exp-revive"}
 
 func c20GenSecret(t *rapid.T, label string) []byte {
@@ -1132,7 +1159,7 @@ func c20GenCase(ops []string) func(t *rapid.T) c20Case {
 			c.Text = rapid.StringN(1, 8, -1).Draw(t, "text")
 		case "ks-loc":
 			c.Text = rapid.SampledFrom(append([]string{"", "evil.example"}, c20Servers...)).Draw(t, "text")
-		case "ks-addunknown", "att-unknown", "att-third", "mint":
+		case "ks-addunknown", "att-unknown", "att-third", "att-third-discharged", "mint":
 			if rapid.IntRange(0, 3).Draw(t, "text-random") == 0 {
 				c.Text = rapid.StringN(0, 20, -1).Draw(t, "text")
 			} else {
